@@ -261,6 +261,7 @@ fn any_error_kind() -> ErrorKind {
 pub(crate) struct AnyReader {
     pub stream: [u8; 8],
     pub pos: usize,
+    pub max_calls: u8,
     pub calls: u8,
     pub failed: bool,
     pub interrupted: u8,
@@ -269,14 +270,14 @@ pub(crate) struct AnyReader {
 
 impl AnyReader {
     pub(crate) fn new() -> Self {
-        AnyReader { stream: kani::any(), pos: 0, calls: 0, failed: false, interrupted: 0, fragments: 0 }
+        AnyReader { stream: kani::any(), pos: 0, max_calls: MAX_IO_CALLS, calls: 0, failed: false, interrupted: 0, fragments: 0 }
     }
 }
 
 impl Read for AnyReader {
     fn read(&mut self, buf: &mut [u8]) -> io::Result<usize> {
         self.calls += 1;
-        kani::assume(self.calls <= MAX_IO_CALLS);
+        kani::assume(self.calls <= self.max_calls);
         let choice: u8 = kani::any();
         if choice == 0 {
             self.interrupted += 1;
